@@ -297,7 +297,7 @@ int main(int argc, char** argv) {
             int calls = 0;
             for (auto& s : ss) calls += (int)s.size();
             sc.bound_quick = 1;
-            sc.bound_thorough = (ss.size() == 2) ? (calls <= 3 ? 3 : 2) : (ss.size() == 3 && calls <= 3) ? 2 : 1;
+            sc.bound_thorough = (ss.size() == 2) ? 2 : (ss.size() == 3 && calls <= 3) ? 2 : 1;
             sc.horizon = 5000;
             sc.whole = true;
             sc.spurious_pass = thorough && ss.size() == 2;
